@@ -2,6 +2,7 @@ import DigModel.Proofs.Lookup
 import DigModel.Proofs.ApiLemmas
 import DigModel.Proofs.Shape
 import DigModel.Proofs.ProvApi
+import DigModel.Proofs.JustApi
 /-
   C01 — Injected values are exactly the registered constructors' outputs (resolution rule).
 
@@ -22,8 +23,17 @@ import DigModel.Proofs.ProvApi
     argument of any execution of any user function (constructor, decorator or invoked function) was returned
     by an execution run for a constructor or decorator node that had **exited successfully earlier in the
     history** — never by the invoked function, by a failed execution, or by one that has not finished.
-  That a cached value sits under the *key* its producer declared (the remaining part of cache justification)
-  is covered by the correspondence check (provenance tokens carry the result slot).
+  * `C01_cached_value_justified` (whole programs, invariant `Just`): in every reachable container, a value cached
+    under the single key `k` (type + name) in scope `S` is exactly what a successful execution of a constructor
+    `n` returned in the result slot that **declares `k`** (directly, through a result object, a name tag or an
+    `As` interface), where `n` is registered with home scope `S` (the root for exported constructors), is marked
+    built, and that execution's successful exit is in the history (in a DryRun container: the zero value of the
+    declared type).  Together with the resolution rule above (which says *which* scope's cache or providers
+    answer a request) this is "the value returned by the constructor registered for that type and name in
+    the nearest enclosing scope".
+  Still carried by the correspondence check only: the same justification for value-group members and decorated
+  values (their provenance is `C01_args_from_successful_executions`), and that `n` is listed in
+  `providers[S][k]` (it is by construction of `Provide`).
 -/
 namespace Dig.C01
 
@@ -165,7 +175,22 @@ theorem C01_args_from_successful_executions (p : Program) (i : Nat) (w : Who) (g
   rw [List.getElem?_take_of_lt hlt] at hj
   exact hj
 
+theorem C01_cached_value_justified (p : Program) (S : Nat) (k : Key) (v : Val)
+    (h : aget ((runProgram p).1.scope S).values k = some v) :
+    ∃ n slot decl, n < (runProgram p).1.ctors.length ∧ ((runProgram p).1.ctor n).s = S ∧
+      ((runProgram p).1.ctor n).called = true ∧ (k, slot, decl) ∈ slotLeaves ((runProgram p).1.ctor n).results ∧
+      ∃ ret : Ret, v = ret.val p.types slot decl ∧
+        (ret.dry = false → ret.f = ((runProgram p).1.ctor n).fn.id ∧
+          Event.exit (.ctor n) ret.f ret.x .ok ∈ (runProgram p).1.hist) :=
+  just_program p S k v h
+
+/-- non-vacuity (a test): the leaves of a result object with a named field and an As interface -/
+example : slotLeaves [.err, .val (.object 9 [.single 0 5 5 "n1" [], .single 1 6 21 "" [22]])] =
+    [({ ty := 5, name := "n1", group := "" }, 0, 5), ({ ty := 21, name := "", group := "" }, 1, 6),
+     ({ ty := 22, name := "", group := "" }, 1, 6)] := by decide
+
 #print axioms C01_decorator_wins
+#print axioms C01_cached_value_justified
 #print axioms C01_args_from_successful_executions
 #print axioms C01_decorated_cache
 #print axioms C01_cached_value
